@@ -335,9 +335,11 @@ def op_unit(a):
     elif a.dim == 3:
         n = a.mag
     else:
-        n = a.tau
-        if n <= 0:
-            raise Undefined("unit of non-timelike 4-vector")
+        # "tau == 1 for 4D"; a spacelike vector has negative tau in this library's convention and is normalised to
+        # tau == -1 (same direction, |t**2 - mag**2| == 1); a lightlike vector has no unit vector
+        n = abs(a.tau)
+        if n == 0:
+            raise Undefined("unit of a lightlike 4-vector")
     if n == 0:
         raise Undefined("unit of zero vector")
     return RV(*[c / n for c in a.comps()])
